@@ -11,7 +11,8 @@ Driver for E5/print (C15).
       → {"text":[nat…],"wf":bool,"noff":bool,"rewrites":bool,"spelled":[nat…],
          "eval":{"bytes":bool,"v":[nat…]}|null,"steps":[[before,after]…]}     (regex terminals)
   {"op":"raweval","text":[nat…]} → {"v":{"bytes":bool,"v":[nat…]}|null}       (one-line raw literal)
-  {"op":"selprint","top":T} → {"toks":[stok…],"wf":bool,"read":T|null,"norm":T,"flat":bool}
+  {"op":"selprint","top":T[,"pb":bool]} → {"toks":[stok…],"wf":bool,"read":T|null,"norm":T,"flat":bool}
+      (pb: parenthesise a non-plain base of a group; default = the generated printer; flat = in normal form)
   {"op":"selread","toks":[stok…]} → {"top":T|null}
 N    := IR node of Driver/IRJson | ["crep",id,N,CB]
 CB   := ["single",E] | ["range",B,B|null]          B := ["num",n] | ["expr",E]
@@ -368,9 +369,12 @@ def handle (j : Json) : Except String Json := do
     return Json.mkObj [("v", jRaw (PyLit.evalRaw t))]
   | "selprint" =>
     let t ← topOf (← j.getObjVal? "top")
-    let toks := PS.printTop t
+    let pb ← match j.getObjValAs? Bool "pb" with
+      | .ok b => pure b
+      | .error _ => pure Generated.printCfg.parenSelBase
+    let toks := PS.printTop pb t
     let flat := match t with
-      | .plain s | .star s | .lenBar s | .lenStar s => PS.flat s
+      | .plain s | .star s | .lenBar s | .lenStar s => PS.isNorm s
     return Json.mkObj [("toks", Json.arr (toks.map jSTok).toArray), ("wf", Json.bool (PS.wfTop t)),
       ("read", match PS.readTop toks with | some r => jTop r | none => Json.null),
       ("norm", jTop (PS.normTop t)), ("flat", Json.bool flat)]
